@@ -8,7 +8,10 @@ trap 'git -C /repo worktree remove --force '$wt' >/dev/null 2>&1; git -C /repo w
 git -C $wt apply $V/seeded/$id/patch.diff || { echo "patch does not apply"; exit 2; }
 for c in "$@"; do
   cp $V/evidence/$c.json /tmp/tsw-ev-$$.json 2>/dev/null
-  n=$(cd $V && VERIF_REPO=$wt timeout 3000 ./check $c --tier quick 2>&1 | grep -c "^VIOLATION")
+  out=$(cd $V && VERIF_REPO=$wt timeout 3000 ./check $c --tier quick 2>&1); rc=$?
+  n=$(echo "$out" | grep -c "^VIOLATION")
+  # a run that was aborted (timeout, build error, protocol error) must not read as "0 VIOLATION lines = missed"
+  if echo "$out" | grep -q "^\[verif\] $c quick:"; then fin=complete; else fin="INCOMPLETE(exit=$rc)"; fi
   cp /tmp/tsw-ev-$$.json $V/evidence/$c.json 2>/dev/null; rm -f /tmp/tsw-ev-$$.json
-  echo "seed $id check $c: $n VIOLATION lines"
+  echo "seed $id check $c: $n VIOLATION lines [$fin exit=$rc]"
 done
